@@ -13,7 +13,10 @@ IMPORTS = "From JV Require Import Lib.Base Model.C17Subcmd Spec.C17SubcmdSpec Co
 RULE = ("seeded random subcommand trees (1-3 levels of subcommands, 1-4 subcommands per level, required or optional, "
         "int options and a --cfg option at any level, dest 'subcommand'/'cmd'/'sel', names reused across levels) x "
         "~12 inputs per tree through parse_args (options, --cfg strings and subcommand tokens at every level), "
-        "parse_object, parse_string, each with or without default_env=True and a generated environment; inputs "
+        "parse_object, parse_string, each without or with a generated environment (values for options of inner levels on most "
+        "paths) whose reading is switched on by default_env=True in the constructor, by the root.default_env setter AFTER the tree "
+        "is built, or by parse_*(env=True), or is switched OFF (setter after a default_env=True build, or never on) with the "
+        "variables present all the same; inputs "
         "select, omit, mis-name, or give settings for several subcommands; a case is non-trivial when some channel "
         "names a subcommand or gives a section for one; distinct = distinct (tree, input)")
 TRUSTED = [
@@ -104,7 +107,7 @@ def gen_cfg(rng, P, rich, for_env=False):
     """an OBJ aimed at parser P"""
     o = []
     for k, _ in P["opts"]:
-        if rng.random() < 0.4:
+        if rng.random() < (0.6 if for_env else 0.4):
             o.append([k, rng.randint(10, 99)])
     if rng.random() < 0.03 and not for_env:
         o.append(["q", 5])  # undeclared key
@@ -156,7 +159,9 @@ def gen_argv(rng, P, rich):
 
 def gen_input(rng, P):
     rich = rng.choice([0.2, 0.4, 0.6])
-    env = gen_cfg(rng, P, rich, for_env=True) if rng.random() < 0.4 else None
+    # the environment is generated richer than the configs (values for options of inner levels on most paths), so that
+    # what each level reads from it - under every way of switching it on or off - is exercised at depth >= 2
+    env = gen_cfg(rng, P, rng.choice([0.5, 0.8]), for_env=True) if rng.random() < 0.5 else None
     r = rng.random()
     if r < 0.5:
         entry = {"kind": "args", "argv": gen_argv(rng, P, rich)}
@@ -396,7 +401,7 @@ def shrink(case):
 META = {
     "level_text": "Rocq theorems (coq/Properties/C17.v) over a Gallina model of the parse pipeline, for subcommand trees of ANY depth "
                   "and width and every input of the modelled space (structured argv with options, --cfg values and subcommand tokens at "
-                  "every level; parse_object; parse_string; with or without default_env=True and any environment). "
+                  "every level; parse_object; parse_string; with or without environment parsing and any environment). "
                   "C17_one_selected / C17_one_selected_or_falsy / C17_required_selected / C17_optional_missing_gives_none: a successful "
                   "parse has, at every level, the name of a declared subcommand under the subcommand key, that subcommand's complete "
                   "section (every declared option has a value), a well-selected section below it, and no section of any other "
